@@ -218,7 +218,7 @@ impl HavokObjectType {
 
     pub fn member_count(&self) -> usize {
         (if let Some(x) = &self.parent {
-            x.members.len()
+            x.member_count()
         } else {
             0
         }) + self.members.len()
